@@ -1,7 +1,7 @@
 #!/bin/bash
 # Runs every seeded change against the quick check of its property; prints one line per seed.
 cd /verif
-for d in seeded/*/; do
+for d in seeded/C*/; do
   s=$(basename $d)
   tools/seedrun.sh $s quick 2>&1 | head -1
 done
